@@ -38,7 +38,7 @@ CONFIGS = {
     # name: (core kwargs, K quick, K thorough, tiers)
     "sdr_2b_2p": (dict(phy="sdr_fast", bankbits=1, nports=2, timing=T_SMALL, ctrl=dict(cmd_buffer_depth=4)), 36, 60, "qt"),
     "ddr3_1_4_2b_2p": (dict(phy="ddr3_fast", bankbits=1, nports=2, timing=T_SMALL, ctrl=dict(cmd_buffer_depth=4)), 36, 60, "qt"),
-    "ddr3_1_4_2rank": (dict(phy="ddr3_fast", bankbits=1, nports=2, nranks=2, timing=T_SMALL, ctrl=dict(cmd_buffer_depth=4)), 18, 30, "qt"),
+    "ddr3_1_4_2rank": (dict(phy="ddr3_fast", bankbits=1, nports=2, nranks=2, timing=T_SMALL, ctrl=dict(cmd_buffer_depth=4)), 24, 30, "qt"),
     "sdr_noap_fulltimings": (dict(phy="sdr_fast", bankbits=1, nports=2, timing=T_FULL, ctrl=dict(cmd_buffer_depth=4, with_auto_precharge=False)), 36, 60, "qt"),
     "ddr_1_2_4b_3p": (dict(phy="ddr3_fast2", bankbits=2, nports=3, timing=T_FULL, ctrl=dict(cmd_buffer_depth=4, cmd_buffer_buffered=True)), 0, 44, "t"),
     "ddr3_1_4_postpone2": (dict(phy="ddr3_fast", bankbits=1, nports=2, timing=T_SMALL, ctrl=dict(cmd_buffer_depth=8, refresh_postponing=2)), 0, 50, "t"),
